@@ -7,7 +7,8 @@
    stored as its predecessor, the latest TRC never regresses, stored TRCs are never replaced.
 2. TLC (spec/TrustStoreGen.tla) enumerates sequential histories of notifications (stale, current,
    future serials, other base, other ISD; every failure kind at every position; two valid contents)
-   and LoadTRCs calls (past / future validity, conflicting content).
+   and LoadTRCs calls (directories mixing successors, gaps, future-dated updates, a future-dated BASE TRC
+   of another ISD, conflicting content, unparsable files, in every file-name order).
 3. harness/cmd/trust -mode notify replays each history on the real FetchingProvider + real in-memory
    sqlite trust DB with a scripted remote serving real signed TRCs (genuine chains a/b, missing vote,
    unknown signers, wrong serial, stale, other base, other ISD, injected insert failure) and on the
